@@ -1,5 +1,5 @@
 /-
-Driver for C05 at scheduler level (id C05S): `Sched3Q` correspondence + judge on the observed trace.
+Driver for C05 at scheduler level (id C05S): `Sched3QT` correspondence + judge on the observed trace.
 
 The judge is written from the property text and reads only what the REAL scheduler showed after every
 operation (pool with status / held / queued flag, the proxies waiting on job preparation, the contents of the
@@ -24,8 +24,8 @@ no model function.
       command, plus the members the same command has started before it, in the order the command handled them) it
       must not start - it has to be queued.
 -/
-import CylcModel.Sched3QJson
-open Lean CylcModel.Drv CylcModel.Sched3Q
+import CylcModel.Sched3QTJson
+open Lean CylcModel.Drv CylcModel.Sched3QT
 
 namespace CylcModel.DrvC05S
 
@@ -142,7 +142,10 @@ def judgeState (g : Graph) (idx : Nat) (prev : Option OObs) (trig exempt : List 
       match prev with
       | some b =>
         if trig.contains k && b.wjp.contains k then
-          some s!"retrigger-queued-and-started: {what}: it was triggered again while already waiting on job preparation"
+          some s!"queued-and-started: {what}: it was triggered again while already waiting on job preparation"
+        else if b.wjp.contains k && (b.pool.any fun t => t.key == k && t.held) &&
+            !(o.pool.any fun t => t.key == k && t.held) then
+          some s!"queued-and-started: {what}: it was triggered while held and has now been released from hold"
         else if !isActiveKey b k && !(o.prep.map (·.1)).contains k && !trig.contains k then
           some s!"unsolicited-message-activation: {what}: it became active without being released by the queue"
         else some what
